@@ -40,6 +40,7 @@ RULES = [
     Rule('C01.R2', 'length checks and seek targets are computed without pointer or 32-bit overflow', 6),
     Rule('C01.R3', 'sizes from >16-bit file fields are compared with the remaining source before allocating', 2),
     Rule('C01.R3b', 'an allocation size computed as an unsigned difference cannot wrap: rest-of-file idiom (tell, seek to END, tell) or dominated by a comparison of the two operands', 2),
+    Rule('C01.R3c', 'the MIDI channel table grows by one block per device name only up to a fixed number of devices', 1),
     Rule('C01.R4', 'the song index is clamped from both sides before subscripting the song list', 2),
     Rule('C01.R5', 'no assert / abort / throw on input-dependent conditions in loader and converter code', 3),
     Rule('C01.R6', 'loops make progress: anti-freeze counter in Tick, induction variables as wide as their bounds', 10),
@@ -96,6 +97,7 @@ def analyse(facts, tier):
     obls += r1c(facts)
     obls += r3(facts)
     obls += r3b(facts)
+    obls += r3c_device_cap(facts)
     obls += r4(facts)
     obls += r5(facts)
     obls += r6(facts)
@@ -655,6 +657,34 @@ def r3b(facts):
                                    'difference wraps to ~2^64 and the allocation throws length_error/bad_alloc through the C API' % (show(sub)[:60], show(r)[:30], show(l)[:30])))
     if n < 2 and facts.view not in ('noSEQ',):
         raise build.AnalysisBroken('C01.R3b: fewer than 2 difference-sized allocations found (expected the rest-of-file sizes of the CMF/IMF/RSXX loaders)')
+    return out
+
+
+def r3c_device_cap(facts):
+    """FF 09 (device switch) events name a MIDI port; every new name gets its own block of 16 channel records (tens of KB each).  A
+    file can introduce a new name with half a dozen bytes, so the growth is bounded only if chooseDevice() stops creating blocks at
+    a fixed number of devices: the resize of m_midiChannels is dominated by a comparison of m_midiDevices.size() with a constant."""
+    out = []
+    fn = facts.fns.get('OPNMIDIplay::chooseDevice')
+    if not fn:
+        raise build.AnalysisBroken('C01.R3c: OPNMIDIplay::chooseDevice not found')
+    fn = fn[0]
+    n = 0
+    for b, j, st in fn.cfg.stmts():
+        for x in walk(st['s']):
+            if 'callee' in x and short(callee_name(x)) == 'resize' and x.get('obj') is not None and mentions(x['obj'], mem('m_midiChannels')):
+                n += 1
+                cap = None
+                for f in guard_facts(fn, b, st):
+                    nn = cmp_norm(f) if f[0] == 'cmp' else None
+                    if nn and nn[0] in ('<', '<=') and isinstance(nn[2], int) and nn[2] <= 256 and \
+                            any(isinstance(y, dict) and 'callee' in y and short(callee_name(y)) == 'size' and y.get('obj') is not None and mentions(y['obj'], mem('m_midiDevices')) for y in walk(nn[1])):
+                        cap = nn[2]
+                out.append(Obl('C01.R3c', fn.name, 'm_midiChannels.resize(n + 16)', st['loc'], 'discharged' if cap is not None else 'finding',
+                               why='only while m_midiDevices.size() < %s' % cap if cap is not None else
+                               'every distinct device name of the song adds 16 channel records without limit: a file of a few KB makes the player allocate gigabytes (and std::bad_alloc leaves the C API)'))
+    if n < 1:
+        raise build.AnalysisBroken('C01.R3c: resize of m_midiChannels in chooseDevice not found')
     return out
 
 
